@@ -381,7 +381,22 @@ func repsim(args []string) error {
 		f1, f2 := (l+1)%3, (l+2)%3
 		// A: all live
 		cl.workload(g, *nA, 4, stats, &mu)
-		// B: follower f1 restarts after a few entries: WAL tail replay + log catch-up
+		// B: follower f1 restarts after a few entries: WAL tail replay + log catch-up.  It is stopped
+		// when a good part of a snapshot interval has been applied since its last snapshot, so
+		// that the restart really re-applies a tail with isReplaying set
+		for k := 0; k < 80; k++ {
+			nd := cl.nodes[f1].nd
+			if nd == nil || nd.GetAppliedIndex() >= nd.GetLastSnapIndex()+uint64(*snap*2/3) {
+				break
+			}
+			cl.workload(g, 3, 2, stats, &mu)
+			time.Sleep(30 * time.Millisecond)
+		}
+		if nd := cl.nodes[f1].nd; nd != nil {
+			mu.Lock()
+			stats["replay_tail_entries"] += int(nd.GetAppliedIndex() - nd.GetLastSnapIndex())
+			mu.Unlock()
+		}
 		cl.stop(f1)
 		cl.workload(g, 4, 2, stats, &mu)
 		if err := cl.start(f1); err != nil {
